@@ -167,7 +167,56 @@ def explore(tier, seed):
     n = len(c["ss"])
     rows = list(range(n))
     chunks = [("unary", tier, seed)] + [("rows", tier, seed, ch) for ch in pool.split(rows, pool.NPROC * 4)]
+    chunks.append(("callsites", tier, seed))
     return pool.run_chunks(run_chunk, chunks)
+
+
+# versions of the pattern MAJOR.MINOR.PATCH[PYTAGNUM] whose text order differs from their PEP 440 order in many pairs
+CALLSITE_VERSIONS = ["0.1.9", "0.1.10", "0.2.0", "0.10.0", "1.0.0a2", "1.0.0a10", "1.0.0b1", "1.0.0rc1", "1.0.0", "1.0.0post1", "1.0.1", "9.0.0", "10.0.0"]
+
+
+def callsites(st):
+    """The two places where the CLI uses the comparison - newest of (config value, tag) in `show`, and the gate of `update` - for every
+    ordered pair of a small version set, against packaging."""
+    import os
+
+    from .. import fakevcs, world
+
+    d = pool.fresh_dir("c16")
+    os.chdir(d)
+    V = CALLSITE_VERSIONS
+    for a in V:
+        for b in V:
+            if a == b:
+                continue
+            world.clear_dir(".")
+            world.write_tree({"bumpver.toml": f'[bumpver]\ncurrent_version = "{a}"\nversion_pattern = "MAJOR.MINOR.PATCH[PYTAGNUM]"\n'.encode()})
+            os.mkdir(".git")
+            fakevcs.install(fakevcs.FakeVCS("git", tags_all=[b], tags_merged=[b], status=[]))
+            try:
+                o = world.cli("show", "--no-fetch")
+            finally:
+                fakevcs.uninstall()
+            st.evaluations += 1
+            shown = [l[len("Current Version: "):] for l in o.stdout.splitlines() if l.startswith("Current Version: ")]
+            want = a if pv.Version(a) >= pv.Version(b) else b
+            st.observe(("show", a, b, o.exit, shown))
+            st.nontriv("callsite", a, b)
+            if o.exit != 0 or shown != [want]:
+                st.violation("C16:call-site:newest-of-config-and-tag", [a, b], {"shown": shown, "expected": want, "exit": o.exit})
+            else:
+                st.outcomes["call-site:newest-of-config-and-tag"] += 1
+            # the gate: --set-version b from a is accepted exactly when b > a
+            world.clear_dir(".")
+            world.write_tree({"bumpver.toml": f'[bumpver]\ncurrent_version = "{a}"\nversion_pattern = "MAJOR.MINOR.PATCH[PYTAGNUM]"\n'.encode()})
+            o2 = world.cli("update", "--dry", "--no-fetch", "--set-version", b)
+            st.evaluations += 1
+            st.observe(("gate", a, b, o2.exit))
+            if (o2.exit == 0) != (pv.Version(b) > pv.Version(a)):
+                st.violation("C16:call-site:gate", [a, b], {"exit": o2.exit, "expected_accept": pv.Version(b) > pv.Version(a), "log": o2.log[-2:]})
+            else:
+                st.outcomes["call-site:gate"] += 1
+    os.chdir("/")
 
 
 def _sig_class(s, ref):
@@ -190,6 +239,9 @@ def _sig_class(s, ref):
 
 def run_chunk(chunk):
     st = Stats()
+    if chunk[0] == "callsites":
+        callsites(st)
+        return st
     c = _prepare(chunk[1], chunk[2])
     ss, keys, ref, rank, rrank = c["ss"], c["keys"], c["ref"], c["rank"], c["rrank"]
     if c["sort_error"]:
@@ -283,6 +335,8 @@ def _rows_safe(st, c, rows):
 
 
 def replay(case, st):
+    if len(case) == 2 and all(x in CALLSITE_VERSIONS for x in case):
+        callsites(st)
     if len(case) == 1:
         s = case[0]
         k = bvversion.parse_version(s)
